@@ -105,8 +105,9 @@ struct LRHarness {
     vrt::op_begin(0);
     vrt::stamp(&r.inv);
     F.active_updates++;
-    lr->update([id](Pair& p) {
+    auto body = [](Pair& p, int id) {
       int i = F.idx(&p);
+      if (id <= 0) vrt::fail("update_functor_consumed", "the update functor was invoked as an rvalue before its last use: its payload is gone for instance %d", i);
       if (F.readers_in[i] != 0) vrt::fail("writer_entered_instance_with_readers", "update functor %d runs on instance %d while %d reader(s) are inside it", id, i, F.readers_in[i]);
       if (F.writer_in[i] != 0) vrt::fail("two_writers", "two update functors run on instance %d at the same time", i);
       F.writer_in[i] = 1;
@@ -117,7 +118,24 @@ struct LRHarness {
       if (p.n < MAXU) p.log[p.n++] = id;
       F.applied[id][i]++;
       F.writer_in[i] = 0;
-    });
+    };
+    if (id % 2) {
+      // a functor object whose rvalue call hands its payload over (like a functor carrying a container that is
+      // moved into the instance); update() applies the functor twice, so it must not call it as an rvalue
+      struct Consuming {
+        decltype(body)* f;
+        mutable int payload;
+        void operator()(Pair& p) const& { (*f)(p, payload); }
+        void operator()(Pair& p) && {
+          int v = payload;
+          payload = -1;
+          (*f)(p, v);
+        }
+      };
+      lr->update(Consuming{&body, id});
+    } else {
+      lr->update([id, &body](Pair& p) { body(p, id); });
+    }
     F.active_updates--;
     vrt::stamp(&r.resp);
     vrt::op_end();
